@@ -265,7 +265,7 @@ func checkC09(w *World, r *Report) {
 	r.Rule("R09.2ii", 10, "no call that can reach user code (reflect.Value.Call, Disposable.Close, resolver/module/middleware callbacks, scope.Close) is made while a scope/provider/analyzer/graph lock is held (collection.mu is exempt: the collection is documented single-goroutine and holds its lock across Build by design)")
 	r.Rule("R09.2iii", 20, "every Lock/RLock is released on every exit of the function that took it (directly or by a deferred unlock)")
 	r.Rule("R09.3", 8, "typestate: a map or disposal list that Close sets to nil (or empties) is index-assigned / appended elsewhere only after a re-check, inside the same critical section, of a condition that Close establishes before it snapshots the table: the field is nil, or the disposed flag is set")
-	r.Rule("R09.4", 2, "every go statement only waits on Done() of a context and then calls the idempotent Close")
+	r.Rule("R09.4", 1, "every go statement only waits on Done() of a context and then calls the idempotent Close")
 	r.Rule("R09.5", 1, "a Load followed by a Store of the same atomic field runs under a lock or uses compare-and-swap (no lost update)")
 	r.Rule("R09.3s", 4, "Close establishes the closed state of a table in the same critical section in which it takes the table's snapshot (before the cascade runs), so an insertion that overlaps Close is either in the snapshot or sees the reset")
 
